@@ -10,9 +10,22 @@ dir="seeded/$id"
 [ -f "$dir/patch.diff" ] || { echo "no $dir/patch.diff"; exit 2; }
 checks="$*"
 [ -n "$checks" ] || checks="$(python3 -c "import json;print(' '.join(json.load(open('$dir/meta.json')).get('checks',[])))")"
+if [ "${SEEDED_VIA:-repo}" = overlay ]; then
+  # leaves /repo untouched (for use while background runs build from /repo): the patched files are
+  # taken from a scratch worktree and injected with the build overlay
+  wt="/tmp/seeded-wt-$id-$$"; ov="/tmp/seeded-ov-$id-$$"
+  git -C /repo worktree add -q --detach "$wt" HEAD || exit 2
+  git -C "$wt" apply "$PWD/$dir/patch.diff" || { echo "patch does not apply"; git -C /repo worktree remove --force "$wt"; exit 2; }
+  mkdir -p "$ov"
+  (cd "$wt" && git status --porcelain | awk '{print $2}' | while read -r f; do mkdir -p "$ov/$(dirname "$f")"; cp "$f" "$ov/$f"; done)
+  git -C /repo worktree remove --force "$wt"
+  export VERIF_EXTRA_OVERLAY="$ov"
+  trap 'rm -rf "$ov"' EXIT
+else
 if ! git -C /repo diff --quiet; then echo "/repo has uncommitted changes"; exit 2; fi
 git -C /repo apply "$PWD/$dir/patch.diff" || { echo "patch does not apply"; exit 2; }
 trap 'git -C /repo checkout -- . ; git -C /repo clean -fdq' EXIT
+fi
 for c in $checks; do
   out="$(bin/verif check "$c" --tier quick 2>&1)"; rc=$?
   n="$(echo "$out" | grep -c '^VIOLATION')"
